@@ -1,10 +1,14 @@
 /-
   C11 — Token streams are faithful.  Property theorems only.
-  The specification (`toks`, `canon`, `preferred`, `Token.valueEq`, …) is in
-  `Lemmas/TokenSpec.lean`; the per-head lemmas and inductions are in `Lemmas/Token*.lean`.
+  The specification (`toks`, `canon`, `preferred`, `halfQuiet`, `Token.valueEq`, `Token.wf`) is in
+  `Lemmas/TokenSpec.lean`, the token-list reader `itemOfTokens` in `Lemmas/TokenParse.lean`; the
+  per-head lemmas and the inductions are in `Lemmas/Token*.lean`.
 -/
 import Minicbor.Lemmas.TokenTree
 import Minicbor.Lemmas.TokenEnc
+import Minicbor.Lemmas.TokenCanon
+import Minicbor.Lemmas.TokenRound
+import Minicbor.Lemmas.TokenParse
 
 namespace Minicbor.C11
 open Dec
@@ -29,7 +33,8 @@ theorem tokenizer_bounded (bs : Bytes) :
       ts.length + tail.length ≤ bs.length :=
   tokenize_spec (bs.length + 1) bs (Nat.lt_succ_self _)
 
-/-- the form asked for in the property text. -/
+/-- the same, in the form of the property text: the item list exists, is no longer than the input,
+    and an error item can only be the last one. -/
 theorem tokenizer_bounded' (bs : Bytes) :
     ∃ items, tokens bs = some items ∧ items.length ≤ bs.length ∧
       ∀ i e, items[i]? = some (TokItem.err e) → i + 1 = items.length := by
@@ -52,7 +57,7 @@ theorem tokenizer_bounded' (bs : Bytes) :
       simp only [List.length_append, List.length_map, List.length_cons, List.length_nil]
       omega
 
-/-! ### well-formed input -/
+/-! ### well-formed input: tokenising -/
 
 /-- **Tokenising a well-formed item**: for a valid wire tree `w` (any head widths, indefinite
     containers, chunked strings) followed by arbitrary bytes `rest`, the tokenizer first yields
@@ -74,21 +79,49 @@ theorem tokenize_encW_single (w : WItem) (hv : w.Valid) :
   have := tokenize_encW [w] (by simp [validAll, hv])
   simpa [encWs] using this
 
+/-! ### each token carries the data-model value of its head -/
+
+/-- **The tokens determine the data-model value**: reading the token list of a valid tree back
+    into the RFC 8949 data model (`itemOfTokens`, which looks at nothing but the payloads of the
+    tokens) gives the value of the tree — integers by their number, strings by their bytes (chunks
+    concatenated), containers with exactly their elements, tags, simple values, float bits. -/
+theorem token_value (w : WItem) (hv : w.Valid) (hq : halfQuiet w = true) :
+    itemOfTokens (toks w) = some (value w) := by
+  have := parse_toks w hv (2 * (toks w).length) [] (Nat.le_refl _)
+  rw [List.append_nil, canon_value w hq] at this
+  simp only [itemOfTokens, this]
+
+/-- without the assumption on half floats: the value of the canonical tree (a signalling half NaN
+    reads back quieted, because the `F16` token holds the widened `f32`). -/
+theorem token_value_canon (w : WItem) (hv : w.Valid) :
+    itemOfTokens (toks w) = some (value (canon w)) := by
+  have := parse_toks w hv (2 * (toks w).length) [] (Nat.le_refl _)
+  rw [List.append_nil] at this
+  simp only [itemOfTokens, this]
+
+/-- the kind of an integer token is the one `Decoder::type_of` assigns to the head, and its
+    payload is the mathematical value (the case the property singles out: `38 80` is `I16(-129)`). -/
+theorem token_int_kinds :
+    toks (.nint .w1 127) = [.i8 (-128)] ∧ toks (.nint .w1 128) = [.i16 (-129)] ∧
+    toks (.nint .w8 (2 ^ 63 - 1)) = [.i64 (-2 ^ 63)] ∧ toks (.nint .w8 (2 ^ 63)) = [.int (-2 ^ 63 - 1)] ∧
+    toks (.uint .w1 24) = [.u8 24] ∧ toks (.uint .w8 1) = [.u64 1] := by decide
+
 /-! ### tokenise, then re-encode -/
 
-/-- **Re-encoding the tokens canonicalises**: the tokens of a valid tree encode to the same tree
-    with every head in preferred (shortest) form; indefinite-length items and chunk boundaries
-    are kept, floats keep their width (a signalling half NaN is quieted, `quiet16`). -/
+/-- **Re-encoding the tokens canonicalises**: the tokens of a valid item sequence encode to the
+    same sequence with every head in preferred (shortest) form; indefinite-length items and chunk
+    boundaries are kept, floats keep their width (a signalling half NaN is quieted, `quiet16`). -/
 theorem tokens_canonicalise (ws : List WItem) (hv : validAll ws = true) :
     ∃ ts, tokens (encWs ws) = some (ts.map TokItem.tok) ∧ encodeTokens ts = encWs (canonL ws) := by
   refine ⟨ws.flatMap toks, tokenize_encW ws hv, ?_⟩
   rw [← toksL_eq_flatMap]; exact enc_toksL ws hv
 
-/-- `canon` does not change the data-model value … -/
-theorem canonChunks_join (cs : List (Width × Bytes)) : joinChunks (canonChunks cs) = joinChunks cs := by
-  induction cs with
-  | nil => rfl
-  | cons c cs ih => obtain ⟨w, b⟩ := c; simp [canonChunks, joinChunks, ih]
+/-- `canon` is what the property calls "the preferred form of the same item sequence": it is
+    well-formed, every head is preferred, and it denotes the same data-model values. -/
+theorem canon_spec (ws : List WItem) (hv : validAll ws = true) :
+    validAll (canonL ws) = true ∧ preferredL (canonL ws) = true ∧
+    (halfQuietL ws = true → values (canonL ws) = values ws) :=
+  ⟨canonL_valid ws hv, canonL_preferred ws, canonL_values ws⟩
 
 /-- **For input in preferred serialisation, tokenise-then-encode is the identity on the bytes.** -/
 theorem tokens_of_preferred (ws : List WItem) (hv : validAll ws = true) (hp : preferredL ws = true) :
@@ -96,18 +129,57 @@ theorem tokens_of_preferred (ws : List WItem) (hv : validAll ws = true) (hp : pr
   obtain ⟨ts, h1, h2⟩ := tokens_canonicalise ws hv
   exact ⟨ts, h1, by rw [h2, canonL_of_preferred ws hp]⟩
 
-/-- the canonical form is itself valid and preferred, so canonicalising is idempotent and its
-    output is a fixed point of tokenise-then-encode.  (sanity of the definition of `canon`) -/
-theorem prefWidth_fits' (n : Nat) (w : Width) (h : w.fits n = true) : (prefWidth n).fits n = true :=
-  prefWidth_fits n (fits_lt64 h)
+/-! ### encode, then tokenise -/
 
-/-- non-vacuity: a non-preferred, nested, partly indefinite tree and its canonical form. -/
+/-- **Every token list, once encoded, tokenises back to value-equal tokens**: same length, and
+    pointwise `Token.valueEq` — integer tokens denote the same number (their kind may change: the
+    encoder writes the shortest head and the decoder classifies by head width), every other token
+    is identical (floats bitwise; `Simple(20..=31)` is written as `f8 xx` and comes back as the same
+    `Simple`).  `Token.wf` = what the Rust payload types guarantee (`Token.ok` and slice lengths below
+    2^64) plus the property's assumption that an `F16` token holds a half-representable `f32`.
+    The intermediate bytes need not be well-formed CBOR. -/
+theorem tokens_roundtrip (ts : List Token) (hwf : ∀ t ∈ ts, Token.wf t) :
+    ∃ ts', tokens (encodeTokens ts) = some (ts'.map TokItem.tok) ∧ Token.valueEqL ts ts' := by
+  obtain ⟨ts', h1, h2⟩ := round_steps ts hwf []
+  exact ⟨ts', tokens_steps_all (by simpa using h1), h2⟩
+
+/-- strict value equality implies the looser one of the property text (which also identifies
+    `Simple(20..23)` with `Bool`/`Null`/`Undefined`). -/
+theorem valueEq_loose (a b : Token) (h : Token.valueEq a b) : Token.valueEqLoose a b := by
+  unfold Token.valueEq at h
+  unfold Token.valueEqLoose
+  split at h
+  · rename_i x y ha hb
+    have ea : Token.alias a = a := by cases a <;> first | rfl | simp [Token.intVal?] at ha
+    have eb : Token.alias b = b := by cases b <;> first | rfl | simp [Token.intVal?] at hb
+    rw [ea, eb]; simp [Token.valueEq, ha, hb, h]
+  · subst h
+    rename_i ha _
+    cases hx : Token.intVal? (Token.alias a) <;> simp [Token.valueEq, hx]
+  · exact h.elim
+
+/-! ### non-vacuity -/
+
+/-- a non-preferred, nested, partly indefinite tree and its canonical form. -/
 example :
     let w : WItem := .array .w2 [.uint .w8 1, .arrayI [.nint .w1 3, .textI [(.w1, [0x61])]], .tag .w4 2 (.f16 0x3c00)]
-    w.Valid ∧ preferred w = false ∧
+    w.Valid ∧ preferred w = false ∧ halfQuiet w = true ∧
     encW w = [0x99, 0, 3, 0x1b, 0, 0, 0, 0, 0, 0, 0, 1, 0x9f, 0x38, 3, 0x7f, 0x78, 1, 0x61, 0xff, 0xff,
               0xda, 0, 0, 0, 2, 0xf9, 0x3c, 0] ∧
-    encW (canon w) = [0x83, 1, 0x9f, 0x23, 0x7f, 0x61, 0x61, 0xff, 0xff, 0xc2, 0xf9, 0x3c, 0] := by
+    encW (canon w) = [0x83, 1, 0x9f, 0x23, 0x7f, 0x61, 0x61, 0xff, 0xff, 0xc2, 0xf9, 0x3c, 0] ∧
+    toks w = [.array 3, .u64 1, .beginArray, .i8 (-4), .beginString, .string [0x61], .brk, .brk, .tag 2,
+              .f16 0x3f800000] := by
   decide
+
+/-- a well-formed token list whose kinds change on the way back. -/
+example :
+    (∀ t ∈ [Token.u64 5, .i32 (-200), .int 70000, .simple 20, .bytes [1, 2]], Token.wf t) ∧
+    tokens (encodeTokens [Token.u64 5, .i32 (-200), .int 70000, .simple 20, .bytes [1, 2]]) =
+      some [.tok (.u8 5), .tok (.i16 (-200)), .tok (.u32 70000), .tok (.simple 20), .tok (.bytes [1, 2])] := by
+  constructor
+  · intro t ht
+    simp only [List.mem_cons, List.not_mem_nil, or_false] at ht
+    rcases ht with rfl | rfl | rfl | rfl | rfl <;> simp [Token.wf, Token.ok] <;> decide
+  · decide
 
 end Minicbor.C11
